@@ -31,8 +31,8 @@ def tlc_project(p: T.Optional[T.Dict[str, T.Any]]) -> T.Dict[str, T.Any]:
         return dict(EMPTY_P)
     ts = []
     for t in p['targets']:
-        ts.append({k: t.get(k, []) for k in ('kind', 'name', 'subdir', 'sp', 'srcs', 'gen', 'genidx', 'genlist', 'link', 'bbd',
-                                             'install', 'outs', 'deps', 'objs')})
+        ts.append({'bsub': t.get('bsub', ''), **{k: t.get(k, []) for k in ('kind', 'name', 'subdir', 'sp', 'srcs', 'gen', 'genidx', 'genlist', 'link', 'bbd',
+                                             'install', 'outs', 'deps', 'objs')}})
     xs = []
     for x in p['tests']:
         xs.append({k: x[k] for k in ('name', 'exe', 'depends', 'args', 'sargs', 'bench', 'suite', 'env', 'sp', 'script')})
